@@ -7,6 +7,7 @@ package main
 // Keys must flatten to a single leaf.
 
 import (
+	"strings"
 	"fmt"
 	"go/types"
 
@@ -28,7 +29,12 @@ func (x *Exec) mapInfo(t types.Type) *mapInfo {
 		ks = []string{sInt} // keyed by content code
 	}
 	if len(ks) != 1 {
-		panic(fmt.Sprintf("map key type %v is not a single SMT value", mt.Key()))
+		// composite keys (structs, arrays): keyed by an uninterpreted code of the
+		// flattened key; injectivity is asserted per key that occurs (keyCode)
+		if _, ok := flatKeySorts(mt.Key()); !ok {
+			panic(fmt.Sprintf("map key type %v is not supported", mt.Key()))
+		}
+		ks = []string{sInt}
 	}
 	return &mapInfo{key: "M_" + typeKey(t), ksort: ks[0], vsorts: leafSorts(mt.Elem()), vnames: leafNames(mt.Elem()), kt: mt.Key(), vt: mt.Elem()}
 }
@@ -43,7 +49,113 @@ func (x *Exec) mapKey(st *State, mt types.Type, k *Val) string {
 	if isString(k.Ty) {
 		return x.strID(k)
 	}
+	kt := under(mt).(*types.Map).Key()
+	if len(leafSorts(kt)) != 1 {
+		return x.keyCode(kt, x.coerceKey(k, kt))
+	}
 	return k.L[0]
+}
+
+func (x *Exec) coerceKey(k *Val, kt types.Type) *Val {
+	if len(k.L) == len(leafSorts(kt)) {
+		return &Val{Ty: kt, L: k.L, X: k.X}
+	}
+	return k
+}
+
+// flatKeySorts: the scalar components of a composite key type.
+func flatKeySorts(t types.Type) ([]string, bool) {
+	switch u := under(t).(type) {
+	case *types.Basic:
+		if u.Info()&types.IsString != 0 {
+			return []string{sInt}, true
+		}
+		ls := leafSorts(t)
+		return ls, len(ls) == 1
+	case *types.Pointer:
+		return []string{sInt}, true
+	case *types.Struct:
+		var out []string
+		for i := 0; i < u.NumFields(); i++ {
+			fs, ok := flatKeySorts(u.Field(i).Type())
+			if !ok {
+				return nil, false
+			}
+			out = append(out, fs...)
+		}
+		return out, true
+	case *types.Array:
+		if u.Len() > 64 {
+			return nil, false
+		}
+		es, ok := flatKeySorts(u.Elem())
+		if !ok {
+			return nil, false
+		}
+		var out []string
+		for i := int64(0); i < u.Len(); i++ {
+			out = append(out, es...)
+		}
+		return out, true
+	}
+	return nil, false
+}
+
+func (x *Exec) flatKeyTerms(v *Val) []string {
+	switch u := under(v.Ty).(type) {
+	case *types.Basic:
+		if u.Info()&types.IsString != 0 {
+			return []string{x.strID(v)}
+		}
+		return []string{v.L[0]}
+	case *types.Struct:
+		var out []string
+		for i := 0; i < u.NumFields(); i++ {
+			out = append(out, x.flatKeyTerms(v.field(i))...)
+		}
+		return out
+	case *types.Array:
+		var out []string
+		for i := int64(0); i < u.Len(); i++ {
+			out = append(out, x.flatKeyTerms(v.arrIndex(num(i)))...)
+		}
+		return out
+	}
+	return []string{v.L[0]}
+}
+
+// keyCode: Int code of a composite map key. Equal keys have equal codes by
+// congruence; distinct keys have distinct codes because every component can be
+// recovered from the code (asserted for each key that occurs in the VC).
+func (x *Exec) keyCode(kt types.Type, k *Val) string {
+	sorts, _ := flatKeySorts(kt)
+	terms := x.flatKeyTerms(k)
+	name := "keycode_" + typeKey(kt)
+	if !x.vc.recDone[name] {
+		x.vc.recDone[name] = true
+		x.vc.recDefs = append(x.vc.recDefs, "(declare-fun "+name+" ("+strings.Join(sorts, " ")+") Int)")
+		for j, s := range sorts {
+			x.vc.recDefs = append(x.vc.recDefs, fmt.Sprintf("(declare-fun %s_inv%d (Int) %s)", name, j, s))
+		}
+	}
+	code := "(" + name + " " + strings.Join(terms, " ") + ")"
+	if x.keyCodes == nil {
+		x.keyCodes = map[string]bool{}
+	}
+	if x.vc.capture != nil || !x.keyCodes[code] {
+		var cs []string
+		for j := range sorts {
+			cs = append(cs, tEq(fmt.Sprintf("(%s_inv%d %s)", name, j, code), terms[j]))
+		}
+		if x.vc.capture != nil {
+			// inside a binder the key may mention bound variables
+			x.vc.assume(tAnd(cs...))
+		} else {
+			x.keyCodes[code] = true
+			x.vc.assumeGlobal(tAnd(cs...))
+		}
+	}
+	return code
 }
 
 func (x *Exec) mapCard(st *State, m *Val) string {
